@@ -62,10 +62,16 @@ class Ang:
     def copy(self):
         return self
 
-    def __init__(self, coef, unit="rad", atoms=None):
+    def __getitem__(self, key):          # 0-d array behaviour: x[()] is x
+        if key == () or key is Ellipsis:
+            return self
+        raise IndexError("an angle is a scalar")
+
+    def __init__(self, coef, unit="rad", atoms=None, quarters=0):
         self.coef = {k: v for k, v in coef.items() if v != 0}      # atom name -> int
         self.atoms = atoms or {}
         self.unit = unit
+        self.quarters = quarters          # constant offset in quarter turns (np.pi - x, 90 - lat, ...)
 
     def _sc(self):
         from .ratfun import Q
@@ -73,6 +79,8 @@ class Ang:
         for name, k in sorted(self.coef.items()):
             s2, c2 = _sc_multiple(self.atoms[name], k)
             s, c = s * c2 + c * s2, c * c2 - s * s2
+        for _ in range(self.quarters % 4):          # adding 90 degrees: (s, c) -> (c, -s)
+            s, c = c, -s
         return s, c
 
     def sin(self):
@@ -87,12 +95,12 @@ class Ang:
 
     # units
     def deg2rad(self):
-        return Ang(self.coef, "rad", self.atoms)
+        return Ang(self.coef, "rad", self.atoms, self.quarters)
 
     radians = deg2rad
 
     def rad2deg(self):
-        return Ang(self.coef, "deg", self.atoms)
+        return Ang(self.coef, "deg", self.atoms, self.quarters)
 
     degrees = rad2deg
 
@@ -104,9 +112,14 @@ class Ang:
                 coef[k] = coef.get(k, 0) + sign * v
             atoms = dict(self.atoms)
             atoms.update(o.atoms)
-            return Ang(coef, self.unit, atoms)
+            return Ang(coef, self.unit, atoms, self.quarters + sign * o.quarters)
         if liftable(o) and not isinstance(o, Sym) and float(o) == 0:
             return self
+        if isinstance(o, (int, float, np.integer, np.floating)) and not isinstance(o, bool):
+            # a constant that is a whole number of quarter turns in this angle's unit
+            q = float(o) / (90.0 if self.unit == "deg" else math.pi / 2)
+            if abs(q - round(q)) < 1e-12:
+                return Ang(self.coef, self.unit, self.atoms, self.quarters + sign * int(round(q)))
         return NotImplemented
 
     def __add__(self, o):
@@ -122,11 +135,11 @@ class Ang:
         return NotImplemented if r is NotImplemented else -r
 
     def __neg__(self):
-        return Ang({k: -v for k, v in self.coef.items()}, self.unit, self.atoms)
+        return Ang({k: -v for k, v in self.coef.items()}, self.unit, self.atoms, -self.quarters)
 
     def __mul__(self, k):
         if isinstance(k, (int, float)) and float(k) == int(k):
-            return Ang({a: v * int(k) for a, v in self.coef.items()}, self.unit, self.atoms)
+            return Ang({a: v * int(k) for a, v in self.coef.items()}, self.unit, self.atoms, self.quarters * int(k))
         if isinstance(k, float) and k != 0 and abs(1 / k - round(1 / k)) < 1e-12:
             return self / round(1 / k)
         if isinstance(k, (float, np.floating)) and self.unit == "deg" and abs(float(k) - math.pi / 180) < 1e-17:
@@ -139,7 +152,7 @@ class Ang:
 
     # ---- order: comparisons with constants are settled by the range of the angle ------------------
     def _range(self):
-        lo = hi = 0.0
+        lo = hi = 90.0 * self.quarters
         for name, k in self.coef.items():
             a, b = self.atoms[name].rng
             lo += min(k * a, k * b)
@@ -193,8 +206,8 @@ class Ang:
     def __truediv__(self, k):
         if isinstance(k, (int, float)) and float(k) == int(k) and int(k) != 0:
             k = int(k)
-            if all(v % k == 0 for v in self.coef.values()):
-                return Ang({a: v // k for a, v in self.coef.items()}, self.unit, self.atoms)
+            if all(v % k == 0 for v in self.coef.values()) and self.quarters % k == 0:
+                return Ang({a: v // k for a, v in self.coef.items()}, self.unit, self.atoms, self.quarters // k)
         raise TypeError("angle division that leaves the atom lattice: %r / %r" % (self, k))
 
     def same_as(self, o):
@@ -206,7 +219,8 @@ class Ang:
         return And(poly_eq(s1, s2), poly_eq(c1, c2))
 
     def __repr__(self):
-        return "Ang(%s %s)" % (" + ".join("%d*%s" % (v, k) for k, v in sorted(self.coef.items())) or "0", self.unit)
+        return "Ang(%s%s %s)" % (" + ".join("%d*%s" % (v, k) for k, v in sorted(self.coef.items())) or "0",
+                                 " + %d quarter turns" % self.quarters if self.quarters else "", self.unit)
 
 
 class AbsAng:
@@ -330,7 +344,7 @@ def arcsin(x):
         return float("nan")
     h = _hint("arcsin", q)
     if h is not None:
-        return Ang(h.coef, "rad", h.atoms)
+        return Ang(h.coef, "rad", h.atoms, h.quarters)
     a = _fresh("asin", (-90.0, 90.0))
     INVERSE_OF[a.name] = ("arcsin", q)
     _eq_fact(a.s, q)
@@ -344,7 +358,7 @@ def arccos(x):
         return float("nan")
     h = _hint("arccos", q)
     if h is not None:
-        return Ang(h.coef, "rad", h.atoms)
+        return Ang(h.coef, "rad", h.atoms, h.quarters)
     a = _fresh("acos", (0.0, 180.0))
     INVERSE_OF[a.name] = ("arccos", q)
     _eq_fact(a.c, q)
@@ -367,7 +381,7 @@ def arctan2(y, x):
         return Ang({}, "rad", {})
     h = _hint("arctan2", qy, qx)
     if h is not None:
-        return Ang(h.coef, "rad", h.atoms)
+        return Ang(h.coef, "rad", h.atoms, h.quarters)
     a = _fresh("atan2")
     INVERSE_OF[a.name] = ("arctan2", qy, qx)
     from .ratfun import Q
